@@ -24,6 +24,9 @@ def eval_call(ex, e: ast.Call, st: State) -> SV:
         if n == 'next' and e.args and isinstance(e.args[0], ast.GeneratorExp):
             default = ex.ev(e.args[1], st) if len(e.args) > 1 else None
             return ex.gen_first(e.args[0], default, st, strict=len(e.args) == 1)
+        if n == 'set' and len(e.args) == 1 and isinstance(e.args[0], ast.GeneratorExp) and not e.keywords:
+            g = e.args[0]          # set(<generator>) == {<elt> for ...}
+            return ex.ev_SetComp(ast.copy_location(ast.SetComp(elt=g.elt, generators=g.generators), g), st)
         if n in ('any', 'all') and e.args and isinstance(e.args[0], (ast.GeneratorExp, ast.ListComp)):
             return ex.gen_any_all(e.args[0], st, n == 'any')
         if n == 'list' and e.args and isinstance(e.args[0], (ast.GeneratorExp,)):
@@ -318,6 +321,17 @@ def container_method(ex, recv: SV, name: str, pos, kw, st: State) -> SV:
             st.set_arr('D_has', z3.Store(h.arr['D_has'], recv.t, z3.Store(z3.Select(h.arr['D_has'], recv.t), k, z3.BoolVal(True))))
             st.set_arr('D_size', z3.Store(h.arr['D_size'], recv.t, z3.If(had, h.size(recv.t), h.size(recv.t) + 1)))
             return SV_NONE
+        if name == 'intersection' and len(pos) == 1 and pos[0].kind == 'ref' and pos[0].cls == 'set':
+            h = st.h
+            a = st.alloc_addr(CLS_SET)
+            HAS = ex.fresh(SetVB, 'ixhas')
+            n_ = ex.fresh(z3.IntSort(), 'ixsize')
+            k_ = z3.Const('k!ix%d' % ex.uid(), Val)
+            st.assume(z3.ForAll([k_], z3.Select(HAS, k_) == z3.And(h.has(recv.t, k_), h.has(pos[0].t, k_)), patterns=[z3.Select(HAS, k_)]))
+            st.assume(z3.And(n_ >= 0, n_ <= h.size(recv.t), n_ <= h.size(pos[0].t)))
+            st.set_arr('D_has', z3.Store(st.h.arr['D_has'], a, HAS))
+            st.set_arr('D_size', z3.Store(st.h.arr['D_size'], a, n_))
+            return sv_ref(a, T('set', cls='set', elem=recv.ty.elem if recv.ty else None))
         if name in ('discard', 'remove'):
             k = to_val(pos[0])
             h = st.h
